@@ -301,6 +301,12 @@ def check_hints(ctx, prog):
     ctx.require(found >= 3, "expected >= 3 hash-size hints, found %d" % found)
 
 
+# functions too large for the path-sensitive release analysis within its state budget; they are not summarised and
+# not reported on.  A function joining this set ends the run as analysis-broken instead of passing unseen.
+BUDGET_SKIPS = {"extract_reqs", "igetput_varn", "intra_node_aggregation", "ncmpio_igetput_varm", "req_commit", "ncmpi_open",
+                "put_varm"}
+
+
 def run(ctx):
     ctx.rule("R9a.bound", "every header word is upper-bounded (raw) or sign-tested (after conversion to a signed type) "
              "before its first non-comparison use, or is a listed field validated later")
@@ -315,3 +321,14 @@ def run(ctx):
     check_hints(ctx, prog)
     r5.run_r5(ctx, prog)
     ctx.min_instances("R5.queue", 30)
+    # ---- no double release / use after release, across function boundaries ----------------------------
+    from rules import r3free
+    ctx.rule("R3.dfree", "no object is released twice or dereferenced after release on any path (symbolic pointer values, "
+             "callee release summaries per return-value class)")
+    lib = ctx.program(groups=["lib"])
+    n, summaries, skipped = r3free.check(ctx, lib, "R3.dfree", lambda fn: True)
+    ctx.require(n >= 800, "R3.dfree: only %d functions analysed" % n)
+    ctx.require("ncmpio_free_NC_attr" in summaries and "ncmpio_free_NC_var" in summaries,
+                "R3.dfree: release summaries of the metadata destructors are missing")
+    new_skips = sorted(set(skipped) - BUDGET_SKIPS)
+    ctx.require(not new_skips, "R3.dfree: %s exceed(s) the state budget and would be silently excluded" % ", ".join(new_skips))
